@@ -3,6 +3,8 @@ package props
 import (
 	"context"
 	"fmt"
+	"os"
+	"path/filepath"
 	"strings"
 
 	"go.lsp.dev/protocol"
@@ -93,6 +95,50 @@ func newC06Env() *c06Env {
 	s.Initialize(wire.InitOpts{})
 	s.Initialized()
 	return &c06Env{s: s, uri: "file:///c06/doc.journal"}
+}
+
+// c06WsEnv: a server with a workspace folder whose root journal is the open
+// document; every text arrives as an edit of the root journal (the workspace
+// index, the include graph and the loader are updated incrementally) and is
+// then saved.
+type c06WsEnv struct {
+	s    *wire.Session
+	path string
+	uri  string
+}
+
+func newC06WsEnv(c *core.Ctx) *c06WsEnv {
+	dir := filepath.Join(c.Scratch, "c06ws")
+	_ = os.MkdirAll(dir, 0o755)
+	path := filepath.Join(dir, "main.journal")
+	_ = os.WriteFile(path, []byte(""), 0o644)
+	s := wire.New()
+	s.Initialize(wire.InitOpts{Root: dir})
+	s.Initialized()
+	e := &c06WsEnv{s: s, path: path, uri: wire.URI(path)}
+	_ = s.Srv.DidOpen(context.Background(), &protocol.DidOpenTextDocumentParams{TextDocument: protocol.TextDocumentItem{URI: protocol.DocumentURI(e.uri), Text: ""}})
+	return e
+}
+
+// edit replaces the root journal's text, asks for a completion and saves.
+func (e *c06WsEnv) edit(c *core.Ctx, text string) {
+	cas := c06Case{Text: text, Feature: "workspace: didChange of the root journal + completion + didSave"}
+	c.Announce(cas)
+	c.Watch(cas)
+	defer c.Unwatch()
+	defer func() {
+		if p := recover(); p != nil {
+			c.Violate("panic|workspace edit|"+firstLine(fmt.Sprint(p)), "every request returns without crashing", fmt.Sprintf("%v\ninput %q", p, firstN(text, 200)), cas)
+		}
+	}()
+	_ = e.s.Srv.DidChange(context.Background(), &protocol.DidChangeTextDocumentParams{
+		TextDocument:   protocol.VersionedTextDocumentIdentifier{TextDocumentIdentifier: protocol.TextDocumentIdentifier{URI: protocol.DocumentURI(e.uri)}},
+		ContentChanges: []protocol.TextDocumentContentChangeEvent{{Text: text}},
+	})
+	_, _ = e.s.Srv.Completion(context.Background(), &protocol.CompletionParams{TextDocumentPositionParams: protocol.TextDocumentPositionParams{TextDocument: protocol.TextDocumentIdentifier{URI: protocol.DocumentURI(e.uri)}}})
+	_ = os.WriteFile(e.path, []byte(text), 0o644)
+	_ = e.s.Srv.DidSave(context.Background(), &protocol.DidSaveTextDocumentParams{TextDocument: protocol.TextDocumentIdentifier{URI: protocol.DocumentURI(e.uri)}})
+	c.Res.Evaluations++
 }
 
 // open stores the raw bytes (invalid UTF-8 included) through the typed API: a
@@ -214,6 +260,7 @@ func (e *c06Env) parseOnly(c *core.Ctx, text string) {
 
 func checkC06(c *core.Ctx) {
 	e := newC06Env()
+	ws := newC06WsEnv(c)
 	if c.Replay != nil {
 		var cs c06Case
 		if err := jsonUnmarshal(c.Replay, &cs); err != nil {
@@ -303,6 +350,7 @@ func checkC06(c *core.Ctx) {
 			cas := c06Case{Text: body, Feature: "lexer"}
 			c06Lexer(c, body, cas)
 			e.allFeatures(c, body, true, "")
+			ws.edit(c, body)
 			e.allFeatures(c, "2001-01-01 t\n    a:b  "+body+"\n    c:d\n", len(cur) <= 2, "")
 		}
 		if len(cur) == fragLen || c.Expired() {
